@@ -563,9 +563,12 @@ spif_mbuff_rindex(spif_mbuff_t self, spif_uint8_t c)
     spif_byteptr_t tmp;
 
     ASSERT_RVAL(!SPIF_MBUFF_ISNULL(self), ((spif_memidx_t) -1));
-    for (tmp = self->buff + self->len - 1; (*tmp != c) && (tmp >= self->buff); tmp--);
+    if (self->len <= 0) {
+        return (spif_memidx_t) (self->len);
+    }
+    for (tmp = self->buff + self->len - 1; (tmp > self->buff) && (*tmp != c); tmp--);
 
-    if ((tmp == self->buff) && (*tmp != c)) {
+    if (*tmp != c) {
         return (spif_memidx_t) (self->len);
     } else {
         return (spif_memidx_t) ((spif_long_t) tmp - (spif_long_t) self->buff);
